@@ -455,7 +455,7 @@ func (b *builder) closure() (g, h vkit.GJ, want bool, label string) {
 	for i := 0; i < k; i++ {
 		rs = append(rs, b.ring())
 	}
-	mode := rapid.SampledFrom([]string{"same_all_open", "same_mixed", "swap", "swap", "toggle_one"}).Draw(b.t, "closuremode")
+	mode := rapid.SampledFrom([]string{"same_all_open", "same_mixed", "swap", "swap", "toggle_one", "inexact_closing"}).Draw(b.t, "closuremode")
 	cg, ch := make([]bool, k), make([]bool, k) // closed?
 	for i := range cg {
 		cg[i] = mode != "same_all_open" && rapid.Bool().Draw(b.t, "closedg")
@@ -482,6 +482,13 @@ func (b *builder) closure() (g, h vkit.GJ, want bool, label string) {
 	var gr, hr [][]vkit.P2
 	for i, r := range rs {
 		open := r[:len(r)-1]
+		if mode == "inexact_closing" {
+			// g's own closing vertex is a little off its first vertex (by less than tol, as a ring that was itself perturbed
+			// has it); h is g with every coordinate - that closing vertex too - perturbed by less than tol
+			g := append(append([]vkit.P2{}, open...), b.jit(open[0]))
+			gr, hr = append(gr, g), append(hr, b.jitPts(g))
+			continue
+		}
 		gr = append(gr, spell(open, cg[i]))
 		hr = append(hr, spell(b.jitPts(open), ch[i]))
 	}
